@@ -299,3 +299,26 @@ Proof.
 Qed.
 
 End Total.
+
+(* ---------------------------------------------------------------- every module of a well-formed design elaborates *)
+Theorem elab_total : forall d, WF [] d -> vsem_fragment d ->
+  forall m, In m d -> forall fuel, (elab_fuel d <= fuel)%nat -> exists f, elaborate d fuel (m_name m) = inr f.
+Proof.
+  intros d HWF HF m Hm fuel Hfuel.
+  destruct (wf_acyclic _ _ HWF) as (rank & Hbound & Hdec).
+  unfold elaborate. rewrite (find_module_unique _ _ (wf_names _ _ HWF) Hm).
+  destruct (top_ports (m_ports m) [] ([], [], [])) as [sc0 acc0] eqn:TP.
+  destruct (declare "" (m_items m) sc0 acc0) as [sc acc1] eqn:Dc.
+  assert (SO : scope_ok (decls m) sc).
+  { eapply scope_ok_build with (sc0 := sc0); [exact HWF|exact HF|exact Hm|auto| |exact Dc].
+    apply (proj2 (top_ports_spec _ _ _ _ _ TP)). apply decls_ports_NoDup. now apply (decls_nodup d HWF). }
+  pose proof (max_items_ge _ _ Hm) as Hmax.
+  destruct (elab_items_total d HWF HF rank Hdec (length d) m Hm (Hbound _ Hm) (m_items m) (fun it H => H) fuel "" sc acc1 SO) as [[[nets asg] procs] E].
+  { unfold elab_fuel in Hfuel. simpl in Hfuel. lia. }
+  rewrite E. eauto.
+Qed.
+
+(* the checker's verdict is enough *)
+Corollary elab_total_checked : forall d, wf_design [] d = true -> vsem_fragment d ->
+  forall m, In m d -> forall fuel, (elab_fuel d <= fuel)%nat -> exists f, elaborate d fuel (m_name m) = inr f.
+Proof. intros d H. apply elab_total. now apply wf_design_sound. Qed.
